@@ -3,7 +3,7 @@ import json, os, time, threading
 from concurrent.futures import ThreadPoolExecutor
 from .. import common, gen, pipefam, cachefam
 
-RULE = ("histories over {run with any subset of --reset_h5/--revise_anno, edit genes, edit TEs (move/add/remove), change windows, touch "
+RULE = ("histories over {run with any subset of --reset_h5/--revise_anno, edit genes, edit TEs (move/add/remove), change windows (to a superset, a subset, the same number of windows, the same first and last window, a shifted list), touch "
         "an input, edit an input while keeping its old mtime, backdate a cache file} on one output directory, through the "
         "real command line under the launcher (observe mode). Every run is one correspondence case: the directory BEFORE the run is "
         "abstracted into Model/Cache.v's state (contents identified against fresh-directory references, freshness flags from "
@@ -24,6 +24,8 @@ DIRECTED = [
     [("run", True, True), ("editG", 1), ("editT", 2), ("editW", 1), ("run", False, True)],
     [("run", False, False), ("editT_keep_mtime", 2), ("run", False, False), ("run", True, True)],
     [("run", False, False), ("backdate", "O", 0), ("editT", 1), ("run", False, True), ("run", True, True)],
+    [("run", False, False), ("editW", 2), ("run", False, False), ("editW", 1), ("run", False, True), ("run", True, False)],
+    [("run", False, False), ("editW", 1), ("run", True, False), ("editW", 2), ("run", False, False), ("editW", 0), ("run", False, False)],
 ]
 
 
@@ -40,7 +42,7 @@ def gen_history(r, nmax):
         elif k < 0.64:
             h.append(("editG", r.randint(0, 2)))
         elif k < 0.74:
-            h.append(("editW", r.randint(0, 1)))
+            h.append(("editW", r.randint(0, 2)))
         elif k < 0.80:
             h.append(("touchG",))
         elif k < 0.86:
@@ -136,7 +138,8 @@ def run_world(args):
     import random
     r = random.Random(chk_seed * 1000 + wi)
     case = gen.gen_pair(r, max_chrom=2, max_genes=3, max_tes=10, min_chrom=1 + (wi % 2))
-    base = cachefam.World(case, r)
+    # the worlds that play the directed histories get the window changes a sloppy guard would accept (version 1)
+    base = cachefam.World(case, r, wkinds={0: ("superset", "same_count"), 1: ("subset", "same_ends")}.get(wi))
     out = []
     try:
         base.all_refs()
